@@ -27,6 +27,18 @@ def sure_incompatible(read, iso, delta, max_intron_shift=60, far_ends=False):
             return "read-end-far-beyond-isoform-end:%d" % (read[-1][1] - iso[-1][1])
     ri = introns(read)
     ii = introns(iso)
+    if far_ends:
+        # an intron of the read that begins at the isoform's end (or a little past it) and leads to a block of >= 100 bp
+        # entirely beyond the isoform: an additional exon outside the annotated transcript (more than a fake terminal
+        # exon of <= 40 bp, not an elongation)
+        for k, r in enumerate(ri):
+            if r[1] - r[0] + 1 < 250:
+                continue
+            nxt, prv = read[k + 1], read[k]
+            if r[0] >= iso[-1][1] - 5 and overlap(prv, iso[-1]) and nxt[1] - nxt[0] + 1 >= 100:
+                return "read-exon-beyond-isoform-end:%d-%d" % tuple(nxt)
+            if r[1] <= iso[0][0] + 5 and overlap(nxt, iso[0]) and prv[1] - prv[0] + 1 >= 100:
+                return "read-exon-before-isoform-start:%d-%d" % tuple(prv)
     M = max_intron_shift + 2 * delta + 10
     span = (iso[0][0], iso[-1][1])
     for r in ri:
